@@ -98,6 +98,10 @@ func (n *c49rNode) do(f func()) {
 }
 
 func c49rBuild(ca *c49rCA, label, name, nets string, over m) (*c49rNode, error) {
+	return c49rBuildL(ca, label, name, nets, over, slog.New(slog.DiscardHandler))
+}
+
+func c49rBuildL(ca *c49rCA, label, name, nets string, over m, l *slog.Logger) (*c49rNode, error) {
 	now := time.Now()
 	var pfx []netip.Prefix
 	for _, s := range strings.Split(nets, ",") {
@@ -116,7 +120,6 @@ func c49rBuild(ca *c49rCA, label, name, nets string, over m) (*c49rNode, error) 
 	if err != nil {
 		return nil, err
 	}
-	l := slog.New(slog.DiscardHandler)
 	c := config.NewC(l)
 	if err := c.LoadString(string(cb)); err != nil {
 		return nil, err
